@@ -707,3 +707,436 @@ class FamilyIter(Obj):
 
 models.install_guards(Resolve)
 KERNELS += [Resolve]
+
+
+# =====================================================================================================
+# try_match -- every supplied argument is really matched against its parameter
+# =====================================================================================================
+# Domain of the contract (stated in the evidence): the **kwargs pack block is outside it (assumed not entered:
+# !(has_kwargs && has_kwargs_pattern && !kwargs.empty())); a variadic candidate has at least one parameter (its tail).
+
+from cxxvc.models import Vec  # noqa: E402
+
+KIND_TS, KIND_SCALAR = 0, 1          # WiringArg::Kind::TimeSeries / Scalar
+PK_INPUT, PK_SCALAR = 0, 1           # ParamPattern::Kind::Input / Scalar
+SP_CONCRETE, SP_VAR = 0, 1           # ScalarPattern::Kind::Concrete / Var
+TP_VAR = 7
+
+
+class MapObj(Obj):
+    """ResolutionMap: the shared map (scope 0) or a per-argument copy (scope = 1 + arg index it was copied for)"""
+    cls = "ResolutionMap"
+
+    def __init__(self, scope, extends_shared=True):
+        Obj.__init__(self, name="map")
+        self.scope = scope
+        self.extends_shared = extends_shared
+
+
+class TsPat(Obj):
+    cls = "TypePattern"
+
+    def __init__(self, k, role, pidx=None):
+        Obj.__init__(self, name="ts_pattern")
+        self.k, self.role, self.pidx = k, role, pidx
+
+    def member(self, ctx, name, node):
+        if name == "kind":
+            return self.k.ts_kind[self.pidx] if self.pidx is not None else z3.Int("%s_pattern_kind" % self.role)
+        if name == "constraints":
+            o = Obj("constraints", "constraints")
+            o.m_empty = lambda I, a, n: (self.k.ts_unconstrained[self.pidx] if self.pidx is not None else I.ctx.fresh("c_empty", "bool"))
+            return o
+        if name == "meta":
+            return Ptr(Wild(name="meta"), ctx.fresh("pattern_meta_null", "bool"))
+        return Wild(name=name)
+
+
+class ScPat(Obj):
+    cls = "ScalarPattern"
+
+    def __init__(self, k, pidx):
+        Obj.__init__(self, name="scalar_pattern")
+        self.k, self.pidx = k, pidx
+
+    def member(self, ctx, name, node):
+        if name == "kind":
+            return self.k.sc_kind[self.pidx]
+        if name == "meta":
+            return MetaPtr(self.k.sc_meta[self.pidx])
+        return Wild(name=name)
+
+
+class MetaPtr(Obj):
+    """pointer to interned metadata, compared by identity"""
+    cls = "meta*"
+    custom_binop = True
+
+    def rbinop(self, I, op, other):
+        return self.binop(I, op, other)
+
+    def __init__(self, mid):
+        Obj.__init__(self, name="meta")
+        self.mid = mid
+
+    def binop(self, I, op, other):
+        o = I.ctx.rv(other)
+        if isinstance(o, MetaPtr) and op in ("==", "!="):
+            return (self.mid == o.mid) if op == "==" else (self.mid != o.mid)
+        if isinstance(o, Ptr) and o.target is None and op in ("==", "!="):
+            return (self.mid == 0) if op == "==" else (self.mid != 0)
+        raise Gap("meta pointer %s" % op)
+
+
+class ParamObj(Obj):
+    cls = "ParamPattern"
+
+    def __init__(self, k, pidx):
+        Obj.__init__(self, name="param")
+        self.k, self.pidx = k, pidx
+
+    def member(self, ctx, name, node):
+        if name == "kind":
+            return self.k.p_kind[self.pidx]
+        if name == "ts":
+            return TsPat(self.k, "param", self.pidx)
+        if name == "scalar":
+            return ScPat(self.k, self.pidx)
+        return Wild(name=name)
+
+
+class SchemaPtr(Obj):
+    cls = "TSValueTypeMetaData*"
+    custom_binop = True
+
+    def rbinop(self, I, op, other):
+        return self.binop(I, op, other)
+
+    def __init__(self, k, aidx):
+        Obj.__init__(self, name="schema")
+        self.k, self.aidx = k, aidx
+
+    def binop(self, I, op, other):
+        o = I.ctx.rv(other)
+        if isinstance(o, Ptr) and o.target is None and op in ("==", "!="):
+            nul = self.k.a_schema_null[self.aidx]
+            return nul if op == "==" else z3.Not(nul)
+        raise Gap("schema pointer %s" % op)
+
+    def arrow(self, I):
+        return Wild(name="schema_target")
+
+
+class PortObj(Obj):
+    cls = "WiringPortRef"
+
+    def __init__(self, k, aidx):
+        Obj.__init__(self, name="port")
+        self.k, self.aidx = k, aidx
+
+    def member(self, ctx, name, node):
+        if name == "schema":
+            return SchemaPtr(self.k, self.aidx)
+        return Wild(name=name)
+
+
+class ScalarValue(Obj):
+    cls = "Value(scalar)"
+
+    def __init__(self, k, aidx):
+        Obj.__init__(self, name="scalar_value")
+        self.k, self.aidx = k, aidx
+
+    def m_has_value(self, I, args, n):
+        return self.k.a_has_value[self.aidx]
+
+
+class ArgObj(Obj):
+    cls = "WiringArg"
+
+    def __init__(self, k, aidx):
+        Obj.__init__(self, name="arg")
+        self.k, self.aidx = k, aidx
+
+    def member(self, ctx, name, node):
+        k, i = self.k, self.aidx
+        if name == "kind":
+            return k.a_kind[i]
+        if name == "port":
+            return PortObj(k, i)
+        if name == "scalar_value":
+            return ScalarValue(k, i)
+        if name == "scalar_meta":
+            return MetaPtr(k.a_meta[i])
+        if name == "from_variadic_tail":
+            return k.a_from_tail[i]
+        return Wild(name=name)
+
+
+class TryMatchImpl(Obj):
+    cls = "OperatorImpl"
+
+    def __init__(self, k):
+        Obj.__init__(self, name="impl")
+        self.k = k
+
+    def member(self, ctx, name, node):
+        k = self.k
+        if name in ("has_output", "variadic", "has_kwargs", "has_kwargs_pattern"):
+            return getattr(k, "i_" + name)
+        if name == "params":
+            return k.params
+        if name == "kwargs_pattern":
+            return TsPat(k, "kwargs")
+        if name == "output":
+            return TsPat(k, "output")
+        if name == "default_resolver":
+            return FnMember(k, "default_resolver", k.i_has_resolver)
+        if name == "requires_predicate":
+            return FnMember(k, "requires_predicate", k.i_has_requires)
+        return Wild(name=name)
+
+
+class FnMember(Obj):
+    cls = "std::function"
+
+    def __init__(self, k, what, present):
+        Obj.__init__(self, name=what)
+        self.k, self.what, self.present = k, what, present
+
+    def truth(self, I):
+        return self.present
+
+    def call(self, I, args, n):
+        ctx = I.ctx
+        if ctx.choose(2, "%s outcome" % self.what) == 1:
+            I.throw_from_callee(self.what)
+        if self.what == "requires_predicate":
+            return ctx.fresh("requires_accepts", "bool")
+        return VOID
+
+
+class TryMatch(Kernel):
+    name = "operator_dispatch.cpp:try_match"
+    tu = "src/hgraph/types/operator_dispatch.cpp"
+    filter = "try_match"
+    fn_name = "try_match"
+    property_ids = ("C19",)
+    scope = {"lo": 0, "hi": 3}
+    title = "try_match: a candidate is accepted only if every supplied argument was matched against its own parameter under " \
+            "bindings that extend the shared map"
+    max_paths = 60000
+
+    def setup(self, I):
+        ctx = I.ctx
+        self.nargs, self.nparams = z3.Int("n_args"), z3.Int("n_params")
+        ctx.assume(z3.And(self.nargs >= 0, self.nparams >= 0))
+        for nm in ("has_output", "variadic", "has_kwargs", "has_kwargs_pattern", "has_resolver", "has_requires"):
+            setattr(self, "i_" + nm, z3.Bool("impl_" + nm))
+        ctx.assume(z3.Implies(self.i_variadic, self.nparams >= 1))
+        self.kwargs_empty = z3.Bool("kwargs_empty")
+        ctx.assume(z3.Not(z3.And(self.i_has_kwargs, self.i_has_kwargs_pattern, z3.Not(self.kwargs_empty))))
+        A = lambda nm, s=I_: z3.Array(nm, I_, s)
+        self.a_kind, self.a_meta = A("arg_kind"), A("arg_scalar_meta")
+        self.a_schema_null, self.a_has_value, self.a_from_tail = A("arg_schema_null", B_), A("arg_has_value", B_), A("arg_from_tail", B_)
+        self.p_kind, self.ts_kind, self.sc_kind, self.sc_meta = A("param_kind"), A("param_ts_kind"), A("param_scalar_kind"), A("param_scalar_meta")
+        self.ts_unconstrained = A("param_ts_unconstrained", B_)
+        ctx.assume(z3.ForAll([qa], z3.And(z3.Or(self.a_kind[qa] == KIND_TS, self.a_kind[qa] == KIND_SCALAR),
+                                          z3.Or(self.p_kind[qa] == PK_INPUT, self.p_kind[qa] == PK_SCALAR),
+                                          z3.Or(self.sc_kind[qa] == SP_CONCRETE, self.sc_kind[qa] == SP_VAR))))
+        self.params = Vec(ctx, "params", length=self.nparams, elem=lambda j: ParamObj(self, j))
+        self.args = Vec(ctx, "args", length=self.nargs, elem=lambda i: ArgObj(self, i))
+        kw = Obj("span", "kwargs")
+        kw.m_empty = lambda I_2, a, n: self.kwargs_empty
+        g = Obj("ghost", "tm")
+        self.g = g
+        # checked[i]: argument i went through a pattern match (time-series, promoted scalar, or scalar pattern) against
+        # parameter min(i, nparams-1) under the shared map or a copy of it, and the match succeeded
+        ctx.store[(g.oid, "checked")] = z3.K(I_, z3.BoolVal(False))
+        ctx.store[(g.oid, "wrong_param")] = z3.BoolVal(False)
+        self.shared = MapObj(0)
+        self.rank0 = z3.Int("rank_adjustment0")
+        oreq = Opt(z3.Bool("output_required_has"), z3.Bool("output_required_value"))
+        return None, {"impl": TryMatchImpl(self), "args": self.args, "kwargs": kw, "output_required": oreq,
+                      "expected_output": Ptr(Wild(name="expected_output"), z3.Bool("expected_output_null")),
+                      "map": self.shared, "rank_adjustment": self.rank0, "why": z3.Int("why0"),
+                      "global_state": Wild(name="global_state"), "wiring": Ptr(None), "requires_rejected": z3.Bool("requires_rejected0")}
+
+    def enum_const(self, I, ref):
+        nm = ref.get("name")
+        tbl = {"TimeSeries": KIND_TS, "Scalar": KIND_SCALAR, "Input": PK_INPUT, "Concrete": SP_CONCRETE, "Var": SP_VAR,
+               "TSD": 11}
+        qual = ref.get("type", {}).get("qualType", "")
+        if nm == "Scalar" and "ParamPattern" in qual:
+            return z3.IntVal(PK_SCALAR)
+        if nm == "Var" and "TypePattern" in qual:
+            return z3.IntVal(TP_VAR)
+        if nm == "Concrete" and "TypePattern" in qual:
+            return z3.IntVal(3)
+        if nm in tbl:
+            return z3.IntVal(tbl[nm])
+        raise Gap("enum constant %s" % nm)
+
+    def function_handler(self, name, node, callee_node):
+        h = getattr(self, "f_" + name, None)
+        if h is not None:
+            return h
+        if name in ("format", "ts_pattern_to_string", "scalar_pattern_to_string"):
+            return lambda I, a, n: I.ctx.fresh("text")
+        return Kernel.function_handler(self, name, node, callee_node)
+
+    def ctor_handler(self, qt, node):
+        if qt.endswith("ResolutionMap"):
+            def mk(I, args, n):
+                src = I.ctx.rv(args[0]) if args else None
+                if isinstance(src, MapObj):
+                    return MapObj(src.scope + 1 if src.scope == 0 else src.scope, src.extends_shared)
+                return MapObj(99, False)
+            return mk
+        if qt.endswith("OperatorCallContext"):
+            return lambda I, args, n: Wild(name="context")
+        return Kernel.ctor_handler(self, qt, node)
+
+    def method_handler(self, obj, name, node):
+        if isinstance(obj, Wild):
+            if name == "size":
+                return lambda I, o, a, n: I.ctx.fresh("wild_size")
+            if name == "empty":
+                return lambda I, o, a, n: I.ctx.fresh("wild_empty", "bool")
+            return lambda I, o, a, n: Wild(name=name)
+        return Kernel.method_handler(self, obj, name, node)
+
+    def global_var(self, I, ref, node):
+        if ref.get("name") == "variadic_pack_fixed_input_penalty":
+            v = z3.Int("variadic_pack_fixed_input_penalty")     # a positive rank constant; its value does not matter here
+            I.ctx.assume(v > 0)
+            return v
+        return None
+
+    # ---- callees
+    def _expected_param(self, i):
+        return z3.If(i < self.nparams - 1, i, self.nparams - 1)
+
+    def _match(self, I, what, pat, arg_idx, mp):
+        """a pattern match of argument arg_idx: records it when it is against the argument's own parameter under bindings
+        that extend the shared map; result arbitrary"""
+        ctx = I.ctx
+        ok = ctx.fresh(what + "_matches", "bool")
+        good = z3.BoolVal(isinstance(mp, MapObj) and mp.extends_shared)
+        if pat.pidx is None:
+            good = z3.BoolVal(False)
+            own = z3.BoolVal(False)
+        else:
+            own = pat.pidx == self._expected_param(arg_idx)
+        ch = ctx.store[(self.g.oid, "checked")]
+        ctx.write(Loc((self.g.oid, "checked")), z3.Store(ch, arg_idx, z3.Or(ch[arg_idx], z3.And(ok, good, own))))
+        return ok
+
+    def f_input_ts_pattern_match(self, I, args, n):
+        ctx = I.ctx
+        pat, sch, mp = ctx.rv(args[0]), ctx.rv(args[1]), ctx.rv(args[2])
+        if not isinstance(pat, TsPat):
+            raise Gap("input_ts_pattern_match on an untracked pattern")
+        if isinstance(sch, SchemaPtr):
+            return self._match(I, "ts", pat, sch.aidx, mp)
+        return ctx.fresh("pack_matches", "bool")
+
+    def f_scalar_value_matches_ts_pattern(self, I, args, n):
+        ctx = I.ctx
+        pat, val, mp = ctx.rv(args[0]), ctx.rv(args[1]), ctx.rv(args[2])
+        if not isinstance(pat, TsPat) or not isinstance(val, ScalarValue):
+            raise Gap("scalar_value_matches_ts_pattern on untracked operands")
+        return self._match(I, "promoted_scalar", pat, val.aidx, mp)
+
+    def f_scalar_pattern_match(self, I, args, n):
+        ctx = I.ctx
+        pat, meta, mp = ctx.rv(args[0]), ctx.rv(args[1]), ctx.rv(args[2])
+        if not isinstance(pat, ScPat):
+            raise Gap("scalar_pattern_match on an untracked pattern")
+        # the argument is identified by its scalar_meta term arg_scalar_meta[i]
+        mid = meta.mid if isinstance(meta, MetaPtr) else None
+        if mid is None or not (z3.is_app(mid) and mid.decl().kind() == z3.Z3_OP_SELECT):
+            raise Gap("scalar_pattern_match: argument not identifiable")
+        return self._match(I, "scalar", pat, mid.arg(1), mp)
+
+    def f_output_ts_pattern_match(self, I, args, n):
+        return I.ctx.fresh("output_matches", "bool")
+
+    def f_input_adaptation_rank(self, I, args, n):
+        r = I.ctx.fresh("adaptation_rank")
+        I.ctx.assume(r >= 0)
+        return r
+
+    def f_param_pattern_rank(self, I, args, n):
+        r = I.ctx.fresh("tail_rank")
+        I.ctx.assume(r >= 0)
+        return r
+
+    f_ts_pattern_rank = f_param_pattern_rank
+
+    def f_coerce_scalar_value_to_meta(self, I, args, n):
+        return Opt(I.ctx.fresh("coercible", "bool"), Wild(name="coerced"))
+
+    def f_ts_pattern_resolve(self, I, args, n):
+        return Ptr(Wild(name="resolved_output"), I.ctx.fresh("output_unresolved", "bool"))
+
+    def f_min(self, I, args, n):
+        a, b = I.ctx.rv(args[0]), I.ctx.rv(args[1])
+        return z3.If(a < b, a, b)
+
+    # ---- contract
+    def arg_ok(self, ctx, i):
+        ch = ctx.store[(self.g.oid, "checked")]
+        fixed = z3.If(z3.And(self.i_variadic, self.nparams >= 1), self.nparams - 1, self.nparams)
+        tail = z3.And(self.i_variadic, i >= fixed)
+        p = self._expected_param(i)
+        ts_arg = self.a_kind[i] == KIND_TS
+        exempt_null_input = z3.And(z3.Not(tail), self.p_kind[p] == PK_INPUT, ts_arg, self.a_schema_null[i])
+        scalar_param = z3.And(z3.Not(tail), self.p_kind[p] == PK_SCALAR)
+        exempt_absent_scalar = z3.And(scalar_param, z3.Not(ts_arg), z3.Not(self.a_has_value[i]), self.sc_kind[p] == SP_VAR)
+        concrete_scalar = z3.And(scalar_param, z3.Not(ts_arg), self.sc_kind[p] == SP_CONCRETE)   # matched by identity/coercion, no bindings
+        return z3.Or(ch[i], exempt_null_input, exempt_absent_scalar, concrete_scalar)
+
+    def inv(self, I, ctx):
+        i = self.local(I, "i")
+        yield "index-range", z3.And(i >= 0, i <= self.nargs)
+        yield "every-argument-so-far-was-matched-against-its-own-parameter[C19]", z3.ForAll([qa], z3.Implies(
+            z3.And(qa >= 0, qa < i), self.arg_ok(ctx, qa)))
+        yield "arity-already-checked", z3.If(self.i_variadic, self.nargs >= self.nparams - 1, self.nargs == self.nparams)
+
+    def frame(self, I, ctx):
+        fr = [Loc((self.g.oid, "checked"))]
+        for nm in ("rank_adjustment", "why"):
+            fr.append(self.param_loc(I, nm))
+        return fr
+
+    def param_loc(self, I, nm):
+        f = I.ctx.frame
+        while f is not None:
+            for did, b in f.vars.items():
+                if isinstance(b, Loc) and getattr(b, "decl_name", None) == nm or (isinstance(b, Loc) and b.key[-1] == nm):
+                    return b
+            f = f.parent
+        raise Gap("no location for %s" % nm)
+
+    @property
+    def loops(self):
+        return {0: LoopSpec(self.inv, self.frame)}
+
+    def post(self, I, ret):
+        ctx = I.ctx
+        ctx.oblige("ensures.accepted=>every-supplied-argument-really-matches-its-parameter-under-bindings-extending-the-shared-map"
+                   "[C19 the selected candidate's parameters really match the supplied types with every type variable bound to one "
+                   "type across all positions]",
+                   z3.Implies(ret, z3.ForAll([qa], z3.Implies(z3.And(qa >= 0, qa < self.nargs), self.arg_ok(ctx, qa)))),
+                   kind="post-normal")
+        ctx.oblige("ensures.accepted=>arity-fits", z3.Implies(ret, z3.If(self.i_variadic, self.nargs >= self.nparams - 1,
+                                                                        self.nargs == self.nparams)), kind="post-normal")
+
+    def post_exc(self, I, exc):
+        I.ctx.oblige("raises.nothing(user callbacks are caught)", False, kind="post-exceptional")
+
+
+models_install = __import__("cxxvc.models", fromlist=["install_guards"]).install_guards
+models_install(TryMatch)
+KERNELS.append(TryMatch)
